@@ -365,6 +365,14 @@ def nontrivial(case, out):
 
 
 def shrink(case):
+    for d in _shrink(case):
+        # stay inside the property's quantifier: the horizon must fit the series
+        if d["kind"] in ("tts_fh", "single") and d["n"] <= d["fh"][-1]:
+            continue
+        yield d
+
+
+def _shrink(case):
     c = dict(case)
     for key in ("n", "wl", "step", "iw"):
         v = c.get(key)
